@@ -1,6 +1,7 @@
 package cluster
 
 import (
+	"encoding/json"
 	"fmt"
 	"strconv"
 	"sync"
@@ -9,6 +10,7 @@ import (
 
 	"github.com/bbva/qed/balloon"
 	"github.com/bbva/qed/crypto/hashing"
+	"github.com/bbva/qed/protocol"
 
 	"qedverif/lib"
 )
@@ -88,13 +90,22 @@ func raceWorkerC10(args []string) int {
 				err := Call(nd, func() error {
 					switch r.Intn(4) {
 					case 0:
-						_, e := nd.N.QueryMembership([]byte(ev))
+						p, e := nd.N.QueryMembership([]byte(ev))
+						if e == nil {
+							json.Marshal(protocol.ToMembershipResult([]byte(ev), p)) // what the HTTP handler does after the call returned
+						}
 						return e
 					case 1:
-						_, e := nd.N.QueryDigestMembership(hashing.Digest(EventDigest([]byte(ev))))
+						p, e := nd.N.QueryDigestMembership(hashing.Digest(EventDigest([]byte(ev))))
+						if e == nil {
+							json.Marshal(protocol.ToMembershipResult(nil, p))
+						}
 						return e
 					case 2:
-						_, e := nd.N.QueryMembershipConsistency([]byte(ev), uint64(r.Intn(n)))
+						p, e := nd.N.QueryMembershipConsistency([]byte(ev), uint64(r.Intn(n)))
+						if e == nil {
+							json.Marshal(protocol.ToMembershipResult([]byte(ev), p))
+						}
 						return e
 					default:
 						i, j := uint64(r.Intn(n)), uint64(r.Intn(n))
@@ -103,7 +114,9 @@ func raceWorkerC10(args []string) int {
 						}
 						var p *balloon.IncrementalProof
 						p, e := nd.N.QueryConsistency(i, j)
-						_ = p
+						if e == nil {
+							json.Marshal(protocol.ToIncrementalResponse(p))
+						}
 						return e
 					}
 				})
@@ -215,7 +228,10 @@ func raceWorkerCluster(args []string) int {
 				}
 				err := Call(nd, func() error {
 					if r.Bool() {
-						_, e := nd.N.QueryMembership([]byte(ev))
+						p, e := nd.N.QueryMembership([]byte(ev))
+						if e == nil {
+							json.Marshal(protocol.ToMembershipResult([]byte(ev), p))
+						}
 						return e
 					}
 					i, j := uint64(r.Intn(n)), uint64(r.Intn(n))
